@@ -7,11 +7,9 @@
 (*               str, lines, every cut into chunks, with empty chunks, through a  *)
 (*               generator, through a file object).  outs lists the DISTINCT      *)
 (*               observations with the forms that produced each.                  *)
-(*  k = "steps"  the _next_char calls of one run: character returned, line_num,   *)
-(*               _last_was_cr and number of tokens returned when the call was     *)
-(*               made; edge = the model transition this run was generated for.    *)
-(*  k = "cursor" a sequence of _next_char calls / index rewinds on a chunked       *)
-(*               cursor with the observable cursor state after each.              *)
+(*  k = "steps"  the _next_char calls of one run (only their number is judged).   *)
+(*  k = "cursor" a sequence of _next_char calls / index rewinds driven by the       *)
+(*               harness along a path of the Cursor model: character delivered.   *)
 (*  k = "kv"     Keyvalues.parse on the text in several delivery forms.            *)
 (*  k = "calls"  a script of caller operations (call, peek, push_back, expect) on   *)
 (*               one tokenizer per delivery form, with the result of each.         *)
